@@ -1,8 +1,9 @@
 import Grass.Diag
 /-
-  Helper lemmas for C19, part 3: every state predicate that the five primitive state updates
-  (`doDebug`, `doWarn`, `skipWarn`, `defMixin`, `defFunc`) preserve is preserved by the whole
-  interpreter, for every fuel, program, configuration and start state.
+  Helper lemmas for C19, part 3: every state predicate that the primitive state updates
+  (`doDebug`, `doWarn`, `skipWarn`, and the administrative ones that leave `log`, `visited` and
+  `emitted` alone: declarations, scope exit, content stack, module bookkeeping) preserve is
+  preserved by the whole interpreter, for every fuel, program, configuration and start state.
 -/
 namespace Grass.Diag
 
@@ -11,8 +12,9 @@ structure Prim (cfg : Cfg) (Inv : St → Prop) : Prop where
   debug : ∀ st f l m, Inv st → Inv (st.doDebug cfg f l m)
   warn : ∀ st f l m, Inv st → Inv (st.doWarn cfg f l m)
   skip : ∀ st f l, cfg.warnDedupBySpan = true → Inv st → Inv (st.skipWarn f l)
-  defM : ∀ st m d, Inv st → Inv (st.defMixin m d)
-  defF : ∀ st f d, Inv st → Inv (st.defFunc f d)
+  /-- any update that leaves the three logging fields alone -/
+  admin : ∀ st st' : St, st'.log = st.log → st'.visited = st.visited → st'.emitted = st.emitted →
+    Inv st → Inv st'
 
 /-- `Inv` holds of the state a result carries (if it carries one). -/
 def Res.Holds {α : Type} (Inv : St → Prop) : Res α → Prop
@@ -20,22 +22,37 @@ def Res.Holds {α : Type} (Inv : St → Prop) : Res α → Prop
   | .err _ st => Inv st
   | _ => True
 
+theorem Res.Holds_popContent {α : Type} {cfg : Cfg} {Inv : St → Prop} (P : Prim cfg Inv) (r : Res α)
+    (h : r.Holds Inv) : r.popContent.Holds Inv := by
+  cases r with
+  | ok a st => exact P.admin st _ rfl rfl rfl h
+  | err e st => exact h
+  | outOfFuel => trivial
+  | unsupported => trivial
+
 theorem exec_preserves (cfg : Cfg) (prog : List Stmts) (Inv : St → Prop) (P : Prim cfg Inv) :
     ∀ fuel : Nat,
-      (∀ file line env e st, Inv st → (evalExpr cfg prog fuel file line env e st).Holds Inv) ∧
-      (∀ file env s st, Inv st → (execStmt cfg prog fuel file env s st).Holds Inv) ∧
-      (∀ file env ss st, Inv st → (execStmts cfg prog fuel file env ss st).Holds Inv) ∧
-      (∀ file env x body i dir count st, Inv st →
-          (execFor cfg prog fuel file env x body i dir count st).Holds Inv) := by
+      (∀ ctx line env e st, Inv st → (evalExpr cfg prog fuel ctx line env e st).Holds Inv) ∧
+      (∀ ctx env s st, Inv st → (execStmt cfg prog fuel ctx env s st).Holds Inv) ∧
+      (∀ ctx env ss st, Inv st → (execStmts cfg prog fuel ctx env ss st).Holds Inv) ∧
+      (∀ ctx env x body i dir count st, Inv st →
+          (execFor cfg prog fuel ctx env x body i dir count st).Holds Inv) ∧
+      (∀ ctx env x body vals st, Inv st →
+          (execEach cfg prog fuel ctx env x body vals st).Holds Inv) ∧
+      (∀ ctx env x body i bound step st, Inv st →
+          (execWhile cfg prog fuel ctx env x body i bound step st).Holds Inv) ∧
+      (∀ ctx line env m arg cnt st, Inv st →
+          (execIncl cfg prog fuel ctx line env m arg cnt st).Holds Inv) := by
   intro fuel
   induction fuel with
   | zero =>
-    refine ⟨?_, ?_, ?_, ?_⟩ <;> intros <;> simp [evalExpr, execStmt, execStmts, execFor, Res.Holds]
+    refine ⟨?_, ?_, ?_, ?_, ?_, ?_, ?_⟩ <;> intros <;>
+      simp [evalExpr, execStmt, execStmts, execFor, execEach, execWhile, execIncl, Res.Holds]
   | succ fuel ih =>
-    obtain ⟨ihE, ihS, ihL, ihF⟩ := ih
-    have hE : ∀ file line env e st, Inv st →
-        (evalExpr cfg prog (fuel + 1) file line env e st).Holds Inv := by
-      intro file line env e st hst
+    obtain ⟨ihE, ihS, ihL, ihF, ihC, ihW, ihI⟩ := ih
+    have hE : ∀ ctx line env e st, Inv st →
+        (evalExpr cfg prog (fuel + 1) ctx line env e st).Holds Inv := by
+      intro ctx line env e st hst
       cases e with
       | int n => rw [evalExpr]; exact hst
       | str id => rw [evalExpr]; exact hst
@@ -44,16 +61,16 @@ theorem exec_preserves (cfg : Cfg) (prog : List Stmts) (Inv : St → Prop) (P : 
         split <;> exact hst
       | call f arg =>
         rw [evalExpr]
-        have h1 := ihE file line env arg st hst
-        cases hr : evalExpr cfg prog fuel file line env arg st with
+        have h1 := ihE ctx line env arg st hst
+        cases hr : evalExpr cfg prog fuel ctx line env arg st with
         | ok v st1 =>
           rw [hr] at h1
           simp only
           split
           · trivial
           · rename_i d _
-            have h2 := ihL d.file [(d.param, v)] d.body st1 h1
-            cases hb : execStmts cfg prog fuel d.file [(d.param, v)] d.body st1 with
+            have h2 := ihL d.ctx [(d.param, v)] d.body st1 h1
+            cases hb : execStmts cfg prog fuel d.ctx [(d.param, v)] d.body st1 with
             | ok u st2 =>
               rw [hb] at h2
               exact ihE _ _ _ _ _ h2
@@ -63,39 +80,75 @@ theorem exec_preserves (cfg : Cfg) (prog : List Stmts) (Inv : St → Prop) (P : 
         | err e st1 => rw [hr] at h1; exact h1
         | outOfFuel => trivial
         | unsupported => trivial
+      | pair a b =>
+        rw [evalExpr]
+        have h1 := ihE ctx line env a st hst
+        cases hr : evalExpr cfg prog fuel ctx line env a st with
+        | ok va st1 =>
+          rw [hr] at h1
+          simp only
+          have h2 := ihE ctx line env b st1 h1
+          cases hb : evalExpr cfg prog fuel ctx line env b st1 with
+          | ok vb st2 =>
+            rw [hb] at h2
+            simp only
+            split
+            · trivial
+            · exact h2
+          | err e st2 => rw [hb] at h2; exact h2
+          | outOfFuel => trivial
+          | unsupported => trivial
+        | err e st1 => rw [hr] at h1; exact h1
+        | outOfFuel => trivial
+        | unsupported => trivial
     -- the shape shared by @debug/@warn/@error/letCall/@include-with-argument: evaluate, then continue
-    have evalThen : ∀ {α : Type} file line env e st (k : Val → St → Res α), Inv st →
+    have evalThen : ∀ {α : Type} ctx line env e st (k : Val → St → Res α), Inv st →
         (∀ v st1, Inv st1 → (k v st1).Holds Inv) →
-        (match evalExpr cfg prog fuel file line env e st with
+        (match evalExpr cfg prog fuel ctx line env e st with
           | .ok v st1 => k v st1
           | .err e st1 => .err e st1
           | .outOfFuel => .outOfFuel
           | .unsupported => .unsupported : Res α).Holds Inv := by
-      intro α file line env e st k hst hk
-      have h1 := ihE file line env e st hst
-      cases hr : evalExpr cfg prog fuel file line env e st with
+      intro α ctx line env e st k hst hk
+      have h1 := ihE ctx line env e st hst
+      cases hr : evalExpr cfg prog fuel ctx line env e st with
       | ok v st1 => rw [hr] at h1; exact hk v st1 h1
       | err e st1 => rw [hr] at h1; exact h1
       | outOfFuel => trivial
       | unsupported => trivial
-    have hS : ∀ file env s st, Inv st → (execStmt cfg prog (fuel + 1) file env s st).Holds Inv := by
-      intro file env s st hst
+    -- run a statement list, then apply an administrative update to the final state
+    have listThen : ∀ ctx env ss st (k : St → St), Inv st →
+        (∀ st1, (k st1).log = st1.log ∧ (k st1).visited = st1.visited ∧ (k st1).emitted = st1.emitted) →
+        (match execStmts cfg prog fuel ctx env ss st with
+          | .ok _ st1 => .ok () (k st1)
+          | r => r : Res Unit).Holds Inv := by
+      intro ctx env ss st k hst hk
+      have h1 := ihL ctx env ss st hst
+      cases hr : execStmts cfg prog fuel ctx env ss st with
+      | ok u st1 =>
+        rw [hr] at h1
+        exact P.admin st1 _ (hk st1).1 (hk st1).2.1 (hk st1).2.2 h1
+      | err e st1 => rw [hr] at h1; exact h1
+      | outOfFuel => trivial
+      | unsupported => trivial
+    have hS : ∀ ctx env s st, Inv st → (execStmt cfg prog (fuel + 1) ctx env s st).Holds Inv := by
+      intro ctx env s st hst
       cases s with
       | debug line e =>
         rw [execStmt]
         split
         · exact P.debug _ _ _ _ hst
-        · exact evalThen file line env e st _ hst (fun v st1 h => P.debug _ _ _ _ h)
+        · exact evalThen ctx line env e st _ hst (fun v st1 h => P.debug _ _ _ _ h)
       | warn line e =>
         rw [execStmt]
         split
         · rename_i hc
           simp only [Bool.and_eq_true] at hc
           exact P.skip _ _ _ hc.1 hst
-        · exact evalThen file line env e st _ hst (fun v st1 h => P.warn _ _ _ _ h)
+        · exact evalThen ctx line env e st _ hst (fun v st1 h => P.warn _ _ _ _ h)
       | error line e =>
         rw [execStmt]
-        exact evalThen file line env e st _ hst (fun v st1 h => h)
+        exact evalThen ctx line env e st _ hst (fun v st1 h => h)
       | forLoop line x frm to inclusive body =>
         rw [execStmt]
         exact ihF _ _ _ _ _ _ _ _ hst
@@ -107,52 +160,112 @@ theorem exec_preserves (cfg : Cfg) (prog : List Stmts) (Inv : St → Prop) (P : 
           split
           · exact hst
           · exact ihL _ _ _ _ hst
-      | block body => rw [execStmt]; exact ihL _ _ _ _ hst
-      | mixinDef m p body => rw [execStmt]; exact P.defM _ _ _ hst
-      | funcDef f p body rl ret => rw [execStmt]; exact P.defF _ _ _ hst
-      | incl line m arg =>
+      | block body =>
+        rw [execStmt]
+        exact listThen ctx env body st (fun st1 => st1.restoreDefs st) hst (fun _ => ⟨rfl, rfl, rfl⟩)
+      | mixinDef m p body => rw [execStmt]; exact P.admin st _ rfl rfl rfl hst
+      | funcDef f p body rl ret => rw [execStmt]; exact P.admin st _ rfl rfl rfl hst
+      | incl line m arg => rw [execStmt]; exact ihI _ _ _ _ _ _ _ hst
+      | inclContent line m arg body => rw [execStmt]; exact ihI _ _ _ _ _ _ _ hst
+      | content line =>
         rw [execStmt]
         split
+        · rename_i c rest _
+          exact listThen c.ctx c.env c.body (st.setContents rest) (fun st1 => st1.setContents (some c :: rest))
+            (P.admin st _ rfl rfl rfl hst) (fun _ => ⟨rfl, rfl, rfl⟩)
         · exact hst
-        · rename_i d _
-          split
-          · exact ihL _ _ _ _ hst
-          · exact evalThen file line env _ st _ hst (fun v st1 h => ihL _ _ _ _ h)
-          · trivial
       | letCall line e =>
         rw [execStmt]
-        exact evalThen file line env e st _ hst (fun v st1 h => h)
+        exact evalThen ctx line env e st _ hst (fun v st1 h => h)
       | importFile line k =>
         rw [execStmt]
         split
         · trivial
+        · trivial
         · exact ihL _ _ _ _ hst
-    have hL : ∀ file env ss st, Inv st → (execStmts cfg prog (fuel + 1) file env ss st).Holds Inv := by
-      intro file env ss st hst
+      | each line x vals body => rw [execStmt]; exact ihC _ _ _ _ _ _ hst
+      | whileLoop line x init bound step body => rw [execStmt]; exact ihW _ _ _ _ _ _ _ _ hst
+      | loadMod line k forward =>
+        rw [execStmt]
+        split
+        · trivial
+        · split
+          · cases forward
+            · exact P.admin st _ rfl rfl rfl hst
+            · exact P.admin st _ rfl rfl rfl hst
+          · split
+            · trivial
+            · rename_i body _
+              cases forward
+              · exact listThen ⟨k, k⟩ [] body st (fun st1 => (st1.markLoaded k).addVis ctx.mod k) hst
+                  (fun _ => ⟨rfl, rfl, rfl⟩)
+              · exact listThen ⟨k, k⟩ [] body st (fun st1 => (st1.markLoaded k).addFwd ctx.mod k) hst
+                  (fun _ => ⟨rfl, rfl, rfl⟩)
+    have hL : ∀ ctx env ss st, Inv st → (execStmts cfg prog (fuel + 1) ctx env ss st).Holds Inv := by
+      intro ctx env ss st hst
       cases ss with
       | nil => rw [execStmts]; exact hst
       | cons s rest =>
         rw [execStmts]
-        have h1 := ihS file env s st hst
-        cases hr : execStmt cfg prog fuel file env s st with
+        have h1 := ihS ctx env s st hst
+        cases hr : execStmt cfg prog fuel ctx env s st with
         | ok u st1 => rw [hr] at h1; exact ihL _ _ _ _ h1
         | err e st1 => rw [hr] at h1; exact h1
         | outOfFuel => trivial
         | unsupported => trivial
-    have hF : ∀ file env x body i dir count st, Inv st →
-        (execFor cfg prog (fuel + 1) file env x body i dir count st).Holds Inv := by
-      intro file env x body i dir count st hst
+    have hF : ∀ ctx env x body i dir count st, Inv st →
+        (execFor cfg prog (fuel + 1) ctx env x body i dir count st).Holds Inv := by
+      intro ctx env x body i dir count st hst
       cases count with
       | zero => rw [execFor]; exact hst
       | succ count =>
         rw [execFor]
-        have h1 := ihL file ((x, .int i) :: env) body st hst
-        cases hr : execStmts cfg prog fuel file ((x, .int i) :: env) body st with
+        have h1 := ihL ctx ((x, .int i) :: env) body st hst
+        cases hr : execStmts cfg prog fuel ctx ((x, .int i) :: env) body st with
         | ok u st1 => rw [hr] at h1; exact ihF _ _ _ _ _ _ _ _ h1
         | err e st1 => rw [hr] at h1; exact h1
         | outOfFuel => trivial
         | unsupported => trivial
-    exact ⟨hE, hS, hL, hF⟩
+    have hC : ∀ ctx env x body vals st, Inv st →
+        (execEach cfg prog (fuel + 1) ctx env x body vals st).Holds Inv := by
+      intro ctx env x body vals st hst
+      cases vals with
+      | nil => rw [execEach]; exact hst
+      | cons v vs =>
+        rw [execEach]
+        have h1 := ihL ctx ((x, v) :: env) body st hst
+        cases hr : execStmts cfg prog fuel ctx ((x, v) :: env) body st with
+        | ok u st1 => rw [hr] at h1; exact ihC _ _ _ _ _ _ h1
+        | err e st1 => rw [hr] at h1; exact h1
+        | outOfFuel => trivial
+        | unsupported => trivial
+    have hW : ∀ ctx env x body i bound step st, Inv st →
+        (execWhile cfg prog (fuel + 1) ctx env x body i bound step st).Holds Inv := by
+      intro ctx env x body i bound step st hst
+      rw [execWhile]
+      split
+      · have h1 := ihL ctx ((x, .int i) :: env) body st hst
+        cases hr : execStmts cfg prog fuel ctx ((x, .int i) :: env) body st with
+        | ok u st1 => rw [hr] at h1; exact ihW _ _ _ _ _ _ _ _ h1
+        | err e st1 => rw [hr] at h1; exact h1
+        | outOfFuel => trivial
+        | unsupported => trivial
+      · exact hst
+    have hI : ∀ ctx line env m arg cnt st, Inv st →
+        (execIncl cfg prog (fuel + 1) ctx line env m arg cnt st).Holds Inv := by
+      intro ctx line env m arg cnt st hst
+      rw [execIncl]
+      split
+      · exact hst
+      · rename_i d _
+        split
+        · exact hst
+        · split
+          · exact Res.Holds_popContent P _ (ihL _ _ _ _ (P.admin st _ rfl rfl rfl hst))
+          · exact evalThen ctx line env _ st _ hst
+              (fun v st1 h => Res.Holds_popContent P _ (ihL _ _ _ _ (P.admin st1 _ rfl rfl rfl h)))
+          · trivial
+    exact ⟨hE, hS, hL, hF, hC, hW, hI⟩
 
 theorem run_preserves (cfg : Cfg) (Inv : St → Prop) (P : Prim cfg Inv) (h0 : Inv St.init)
     (fuel : Nat) (prog : List Stmts) : (run cfg fuel prog).Holds Inv := by
